@@ -84,7 +84,7 @@ func genC12() *rapid.Generator[Case] {
 		if len(histKV) > 0 && rapid.IntRange(0, 3).Draw(t, "histkvkeys") != 0 {
 			kvKeys = histKV
 		}
-		gop := genMixedOp(structs, buckets, kvKeys, sKeys, false)
+		gop := genMixedOp(structs, buckets, kvKeys, sKeys, false, nil)
 		bad := Step{K: "bad", End: kind, Managed: rapid.Bool().Draw(t, "bmanaged")}
 		nops := rapid.IntRange(1, 4).Draw(t, "bnops")
 		for len(bad.Ops) < nops {
